@@ -29,7 +29,59 @@ PTOL = 1e-12   # = IcdfPTolE15 of spec/DistLawsOps.tla
 # routing half
 
 
-def override_record(vc, rid, case, seed=0):
+def _case_setup(case):
+    fam, E = case["fam"], list(case["E"])
+    S = D.STORED[fam]
+    X = D.explicit_values(fam)
+    Ed = {n: X[n] for n in E}
+    resolved = {n: Ed.get(n, S[n]) for n in D.NAMES[fam]}
+    return fam, S, Ed, resolved
+
+
+def _eval_pair(a, b, case, Ed, seed):
+    """(outcome, result) of  a.method(x, E)  and of  b.method(x)"""
+    fam, method, kind, pas = case["fam"], case["method"], case["argkind"], case["pass"]
+    out = []
+    for obj, ov in ((a, Ed), (b, {})):
+        try:
+            r = D.call(obj, fam, method, D.arg_of(method, kind), ov, pas,
+                       random_state=D.random_state_of(kind, 1234 + seed))
+            out.append(("ok", r))
+        except Exception as e:  # noqa
+            out.append((type(e).__name__, None))
+    return out
+
+
+def _same_pair(p, q):
+    return all(x[0] == y[0] and (x[1] is None or D.compare(x[1], y[1])[0]) for x, y in zip(p, q))
+
+
+def override_history(vc, cases, isolated, seed):
+    """History leg: ALL instances of all cases are constructed first; then every case is
+    evaluated twice, at different positions of two seeded shuffles of the case list.  Returns
+    per case whether both evaluations equal the isolated one (instance constructed right
+    before its call) bit for bit, and the two positions."""
+    n = len(cases)
+    objs = []
+    with warnings.catch_warnings():
+        warnings.simplefilter("ignore")
+        for c in cases:
+            fam, S, Ed, resolved = _case_setup(c)
+            objs.append((D.build(vc, fam, S), D.build(vc, fam, resolved), Ed))
+        rng = np.random.default_rng(9000 + seed)
+        same = [True] * n
+        pos = [[0, 0] for _ in range(n)]
+        for k in (0, 1):
+            order = rng.permutation(n)
+            for where, i in enumerate(order):
+                a, b, Ed = objs[i]
+                got = _eval_pair(a, b, cases[i], Ed, seed)
+                same[i] = same[i] and _same_pair(got, isolated[i])
+                pos[i][k] = int(where)
+    return same, pos
+
+
+def override_record(vc, rid, case, seed=0, raw=None):
     fam, E, method = case["fam"], list(case["E"]), case["method"]
     kind, pas = case["argkind"], case["pass"]
     S = D.STORED[fam]
@@ -37,7 +89,8 @@ def override_record(vc, rid, case, seed=0):
     Ed = {n: X[n] for n in E}
     resolved = {n: Ed.get(n, S[n]) for n in D.NAMES[fam]}
     rec = dict(id=rid, kind="override", fam=fam, E=E, method=method, argkind=kind, **{"pass": pas},
-               outcome="ok", outcomeinst="ok", same=False, shapeok=False, relq=BIG, effective=False)
+               outcome="ok", outcomeinst="ok", same=False, shapeok=False, relq=BIG, effective=False,
+               hsame=True, hpos=[0, 0])
     arg = D.arg_of(method, kind)
     with warnings.catch_warnings():
         warnings.simplefilter("ignore")
@@ -52,6 +105,8 @@ def override_record(vc, rid, case, seed=0):
             rb = D.call(b, fam, method, arg, {}, pas, random_state=D.random_state_of(kind, 1234 + seed))
         except Exception as e:  # noqa
             rec["outcomeinst"] = type(e).__name__
+        if raw is not None:
+            raw.append([(rec["outcome"], ra), (rec["outcomeinst"], rb)])
         if ra is not None and rb is not None:
             same, shapeok, rel = D.compare(ra, rb)
             rec.update(same=bool(same), shapeok=bool(shapeok), relq=Qc(rel, 1e15, 0, BIG))
@@ -62,6 +117,53 @@ def override_record(vc, rid, case, seed=0):
             except Exception:  # noqa
                 pass
     return rec
+
+
+HIST_X = np.array([0.9, 1.6, 2.3, 3.1])
+HIST_P = np.array([0.05, 0.3, 0.62, 0.97])
+
+
+def hist_expected(vc, fams):
+    """isolated results: Fam(Resolve(S, {n})).method(x), computed before any history runs"""
+    exp = {}
+    for fam in fams:
+        X = D.explicit_values(fam)
+        for n in D.NAMES[fam]:
+            ref = D.build(vc, fam, dict(D.STORED[fam], **{n: X[n]}))
+            for m in ("cdf", "pdf", "icdf"):
+                exp[(fam, n, m)] = getattr(ref, m)(HIST_P if m == "icdf" else HIST_X)
+    return exp
+
+
+def hist_record(vc, rid, ops, exp):
+    """replay one TLC history  new(f) / eval(i, n)  on the real classes"""
+    rec = dict(id=rid, kind="hist", ops=[[str(v) if not isinstance(v, list) else v for v in o] for o in ops],
+               ok=True, nev=0, exc="", bad="")
+    insts = []
+    with warnings.catch_warnings():
+        warnings.simplefilter("ignore")
+        for op in ops:
+            if op[0] == "new":
+                insts.append((op[1], D.build(vc, op[1], D.STORED[op[1]])))
+                continue
+            fam, obj = insts[int(op[1]) - 1]
+            n = op[2]
+            for m in ("cdf", "pdf", "icdf"):
+                rec["nev"] += 1
+                try:
+                    got = getattr(obj, m)(HIST_P if m == "icdf" else HIST_X, **{n: D.explicit_values(fam)[n]})
+                    good = D.compare(got, exp[(fam, n, m)])[0]
+                except Exception as e:  # noqa
+                    good = False
+                    rec["exc"] = rec["exc"] or f"{type(e).__name__}: {e}"[:120]
+                if not good:
+                    rec["ok"] = False
+                    rec["bad"] = rec["bad"] or f"{fam}#{op[1]}.{m}({n}=...)"
+    return rec
+
+
+def hist_key(ops):
+    return "history " + " ".join(f"new({o[1]})" if o[0] == "new" else f"eval(#{o[1]},{o[2]})" for o in ops)
 
 
 def override_key(c):
@@ -344,19 +446,35 @@ def law_cases(ctx, classes):
 # ---------------------------------------------------------------------------------------
 
 
-def judge(ctx, vc, ocases, lcases, summary=True):
-    recs = [override_record(vc, i + 1, c, ctx.seed) for i, c in enumerate(ocases)]
+def judge(ctx, vc, ocases, lcases, summary=True, hists=()):
+    raw = []
+    recs = [override_record(vc, i + 1, c, ctx.seed, raw) for i, c in enumerate(ocases)]
+    if ocases:
+        hs, hp = override_history(vc, ocases, raw, ctx.seed)
+        for r, a, b in zip(recs, hs, hp):
+            r.update(hsame=bool(a), hpos=b)
+    del raw
     lrecs = laws_records(ctx, vc, lcases, len(recs))
-    allrecs = recs + lrecs
+    hrecs = []
+    if hists:
+        exp = hist_expected(vc, sorted({o[1] for h in hists for o in h if o[0] == "new"}))
+        hrecs = [hist_record(vc, len(recs) + len(lrecs) + i + 1, h, exp) for i, h in enumerate(hists)]
+    allrecs = recs + lrecs + hrecs
     if summary:
-        allrecs.append(dict(id=len(allrecs) + 1, kind="summary", tier=ctx.tier))
+        allrecs.append(dict(id=len(allrecs) + 1, kind="summary", tier=ctx.tier, nhist=len(hists)))
     failing = ctx.validate("Trace_C05", "Trace_C05.cfg", allrecs, xss="256m")
     for c, r in zip(ocases, recs):
         ctx.case("override " + override_key(c), nontrivial=bool(r["effective"]) or r["outcome"] != "ok")
         for clause in failing.get(r["id"], []):
             ctx.violation(clause, override_key(c),
                           f"outcome={r['outcome']} instance={r['outcomeinst']} same={r['same']} "
-                          f"shapeok={r['shapeok']} rel={r['relq']}e-15", replay=dict(kind="override", case=c))
+                          f"shapeok={r['shapeok']} rel={r['relq']}e-15 hsame={r['hsame']} at {r['hpos']}",
+                          replay=dict(kind="override", case=c, history=(clause == "CaseOrderIndependent")))
+    for h, r in zip(hists, hrecs):
+        ctx.case(hist_key(h), nontrivial=len({o[1] for o in h if o[0] == "new"}) > 1)
+        for clause in failing.get(r["id"], []):
+            ctx.violation(clause, hist_key(h), f"first deviation {r['bad']} exc={r['exc']!r}",
+                          replay=dict(kind="hist", case=h))
     for c, r in zip(lcases, lrecs):
         ctx.case("laws " + laws_key(c), nontrivial=r["exc"] == "" and len(r.get("dslope", [])) > 0)
         for clause in failing.get(r["id"], []):
@@ -364,7 +482,8 @@ def judge(ctx, vc, ocases, lcases, summary=True):
     if summary:
         for clause in failing.get(allrecs[-1]["id"], []):
             raise Machinery(f"coverage clause {clause} rejected: the executed cases are not the enumerated product")
-    ctx.log(f"{len(recs)} override executions, {len(lrecs)} tables judged, "
+    ctx.log(f"{len(recs)} override executions (each 3x: isolated + 2 history positions), {len(hrecs)} "
+            f"construct/evaluate histories, {len(lrecs)} tables judged, "
             f"{sum(1 for r in allrecs if r['id'] in failing)} rejected")
     return recs, lrecs, failing
 
@@ -403,6 +522,7 @@ def selftest(ctx, orec, lrec):
         muts.append((r, clause))
 
     mut(orec, "OverrideEqualsInstance", same=False)
+    mut(orec, "CaseOrderIndependent", hsame=False)
     mut(orec, "OutcomeAsSpecified", outcome="TypeError")
     F = list(lrec["Fq"])
     mid = len(F) // 2
@@ -461,7 +581,10 @@ def run(ctx):
     ctx.rule = ("routing: TLC enumerates every (family, override subset E of the names, method in pdf/cdf/icdf/"
                 "draw_sample, argument kind scalar/list/ndarray, pass kind keyword/positional); each is executed as "
                 "Fam(S).method(x, E) vs Fam(Resolve).method(x) with pairwise distinct numbers; non-trivial = the "
-                "override changes the result (E non-empty) or the specified outcome is an exception. formula: TLC "
+                "override changes the result (E non-empty) or the specified outcome is an exception; history leg: all 3264 "
+                "instances are constructed first, then every case is evaluated twice at different positions of two "
+                "seeded shuffles and must equal its isolated evaluation bit for bit; plus every TLC-generated "
+                "construct/evaluate history of up to 3 ScipyDistribution instances (4 operations). formula: TLC "
                 "enumerates parameter classes (shape <1/=1/>1, scale 1e-3/1/1e3, location 0/+/-) per family "
                 "(quick: orthogonal array, canonical numbers; thorough: all classes x 6 concretisations, 5 of them seeded random); each is tabulated on a grid over the "
                 "support, its boundary, zero and negative x; non-trivial = table has derivative triples; distinct = "
@@ -480,6 +603,10 @@ def run(ctx):
     # M
     ctx.model_check("ParamRouting", "MC_ParamRouting_override.cfg", must_cover=("NewDist", "CallExplicit"))
     ctx.model_check("ParamRouting", "MC_ParamRouting_override_mut.cfg", expect_violation="OverrideEqualsInstance")
+    ctx.model_check("ParamRoutingHist", ctx.pick("MC_ParamRoutingHist_quick.cfg", "MC_ParamRoutingHist_thorough.cfg"),
+                    must_cover=("New", "EvalKw", "Fit"))
+    ctx.model_check("ParamRoutingHist", "MC_ParamRoutingHist_mut_index.cfg",
+                    expect_violation="InstancesShareNoState")
     ctx.model_check("DistLaws", ctx.pick("MC_DistLaws_quick.cfg", "MC_DistLaws_thorough.cfg"),
                     must_cover=("Tabulate", "Invert"))
     ctx.model_check("DistLaws", "MC_DistLaws_mut_cdf.cfg", expect_violation="MonotoneInv")
@@ -488,8 +615,10 @@ def run(ctx):
     ocases = ctx.generate("ParamRouting", "Gen_ParamRouting_override.cfg")
     classes = ctx.generate("DistLawsGen", f"Gen_DistLaws_{ctx.tier}.cfg")
     lcases = law_cases(ctx, classes)
+    hists = ctx.generate("ParamRoutingHist", "Gen_ParamRoutingHist.cfg")
     # V
-    recs, lrecs, failing = judge(ctx, vc, ocases, lcases)
+    recs, lrecs, failing = judge(ctx, vc, ocases, lcases, hists=hists)
+    ctx.notes["construct_evaluate_histories"] = len(hists)
     ok_o = next((r for r in recs if r["outcome"] == "ok" and r["same"] and r["id"] not in failing), None)
     good = [r for r in lrecs if r["id"] not in failing and r["dslope"] and any(r["rtxin"])]
     ok_l = next((r for r in good if any(s != 0 for s in r["side"])), None)
@@ -515,7 +644,12 @@ def run(ctx):
 def replay(ctx, case):
     vc = import_virocon()
     c = case["case"]
-    if c["kind"] == "override":
+    if c["kind"] == "override" and c.get("history"):
+        # an order dependence needs the other instances: re-run the whole override leg
+        judge(ctx, vc, ctx.generate("ParamRouting", "Gen_ParamRouting_override.cfg"), [], summary=False)
+    elif c["kind"] == "override":
         judge(ctx, vc, [c["case"]], [], summary=False)
+    elif c["kind"] == "hist":
+        judge(ctx, vc, [], [], summary=False, hists=[c["case"]])
     else:
         judge(ctx, vc, [], [c["case"]], summary=False)
